@@ -81,6 +81,16 @@ CHECKS = {
         "note": "Trusted: Python ast, E1 resolver, numpy ufunc where=/out= and boolean-mask selection semantics.",
         "technique": "static analysis: polynomial-normal-form evaluation of the definitions + canonical-form equality; definition-wiring rule over resolved calls and keyword bindings; branch-guard rule",
     },
+    "C16": {
+        "text": "Decides the structural clauses of the FITS round trip for every shape / value / flip setting: the flip points (2-D HDU writer, 2-D file reader, flip_hdu_for_ds9) apply np.flipud exactly once under "
+                "general.fits.flip_for_ds9 and return the unflipped value otherwise, the 1-D utils never flip; per class and per route (file / HDU) writer and reader apply the same number of flips (one for Array2D, Mask2D, Kernel2D, "
+                "Visibilities, Grid2D; none for Array1D, Mask1D) with no raw flip elsewhere on the path; every PrimaryHDU / writeto is created in the designated utils (who-may-call); an existing file is removed before writing "
+                "iff overwrite is requested and writeto never overwrites; os.makedirs is reached only for a non-empty, missing directory component; header keys written on reachable branches equal the keys the readers consume and "
+                "every reader rebuilds with the header's pixel scale; writers hand over native values (masks as float), masks are converted back to booleans. Known finding (listed): anisotropic pixel scales are written as a single "
+                "PIXSCALE because the PIXSCALEY/X branch is dead. Not decided: astropy's value fidelity.",
+        "note": "Trusted: Python ast, E1 resolver and call graph, astropy.io.fits, os / os.path semantics.",
+        "technique": "static analysis: flip-parity counting over the resolved call graph; who-may-call rule; guard dominance on os.remove / os.makedirs; dead-handler rule (transitive can-raise); header key agreement between writer and readers",
+    },
 }
 
 NOT_APPLICABLE = {f"C{n:02d}": PENDING for n in range(1, 21) if f"C{n:02d}" not in CHECKS}
